@@ -26,12 +26,38 @@ Notation pstored := (pstored c).
 Notation pinv := (pinv c U).
 Notation inv := (inv c U).
 Notation dinv := (dinv (c:=c) (U:=U)).
+Notation okst := (okst (c:=c) (U:=U)).
+
+(** Store.Sync as a sequence of writes *)
+Lemma sync_steps s sp : inv s sp -> dinv s -> steps dinv s (sync s) /\ dinv (sync s).
+Proof.
+  intros I D.
+  assert (T1 : steps dinv s (sync s)).
+  { unfold sync. apply flush_one_steps; auto; cbn [ensure_init].
+    - set (s2 := pend_add s []).
+      assert (SS : same_state s s2) by (unfold same_state, same_maps, same_dptrs; split_and!; reflexivity).
+      pose proof (same_state_inv s s2 sp SS I) as [I2 _].
+      rewrite (advance_head_id s2 sp I2), (recede_tail_id s2 sp I2). exact (iv_m _ _ _ _ I2).
+    - set (s2 := pend_add s []).
+      assert (SS : same_state s s2) by (unfold same_state, same_maps, same_dptrs; split_and!; reflexivity).
+      pose proof (same_state_inv s s2 sp SS I) as [I2 _].
+      rewrite (advance_head_id s2 sp I2), (recede_tail_id s2 sp I2).
+      apply pstored_pchain; [exact (iv_m _ _ _ _ I2)|exact (inv_pstored s2 sp I2)]. }
+  split; auto. apply (steps_P dinv dinv_disk_pred s (sync s)); auto.
+Qed.
+
+Lemma inv_okst s sp : inv s sp -> dinv s -> okst s.
+Proof.
+  intros I D. split_and!; auto.
+  - exact (iv_m _ _ _ _ (proj1 I)).
+  - apply pstored_pchain; [exact (iv_m _ _ _ _ (proj1 I))|exact (inv_pstored s sp (proj1 I))].
+Qed.
 
 (** one operation of a history as a sequence of writes *)
 Theorem op_steps s sp o : inv s sp -> dinv s -> op_ok U o ->
   steps dinv s (fst (fst (mstep c s o))).
 Proof.
-  intros I D Hok. unfold mstep. destruct o as [ns|from to nh fails| |]; cbn [to_op step].
+  intros I D Hok. unfold mstep. destruct o as [ns|from to nh fails| | |]; cbn [to_op step].
   - cbn in Hok. destruct ns as [|n0 ns'].
     + cbn. apply st_refl.
     + set (ns := n0 :: ns') in *. change (map c ns) with (c n0 :: map c ns'). cbn [append].
@@ -45,43 +71,22 @@ Proof.
       * rewrite pend_add_ensure_init.
         destruct (flush_micro_facts s sp ns I Hok) as (_ & Fa); [discriminate|].
         destruct (Fa _ (in_flush_micro_s4 s (map c ns))) as (A & B & _). apply pstored_pchain; auto.
-  - apply delete_range_steps. split_and!; auto.
-    + exact (iv_m _ _ _ _ (proj1 I)).
-    + apply pstored_pchain; [exact (iv_m _ _ _ _ (proj1 I))|exact (inv_pstored s sp (proj1 I))].
-  - destruct (flush_none_inv s sp I) as (s4 & E & I4 & Hp).
-    unfold stop. rewrite E. cbn [fst].
-    assert (T1 : steps dinv s s4).
-    { replace s4 with (fst (flush_one s None)) by (rewrite E; reflexivity).
-      apply flush_one_steps; auto; cbn [ensure_init].
-      - set (s2 := pend_add s []).
-        assert (SS : same_state s s2) by (unfold same_state, same_maps, same_dptrs; split_and!; reflexivity).
-        pose proof (same_state_inv s s2 sp SS I) as [I2 _].
-        rewrite (advance_head_id s2 sp I2), (recede_tail_id s2 sp I2). exact (iv_m _ _ _ _ I2).
-      - set (s2 := pend_add s []).
-        assert (SS : same_state s s2) by (unfold same_state, same_maps, same_dptrs; split_and!; reflexivity).
-        pose proof (same_state_inv s s2 sp SS I) as [I2 _].
-        rewrite (advance_head_id s2 sp I2), (recede_tail_id s2 sp I2).
-        apply pstored_pchain; [exact (iv_m _ _ _ _ I2)|exact (inv_pstored s2 sp I2)]. }
-    assert (D4 : dinv s4) by (apply (steps_P dinv dinv_disk_pred s s4); auto).
+  - destruct (sync_steps s sp I D) as [T1 D1]. unfold delete_range.
+    eapply steps_trans; [exact T1|]. apply delete_range_synced_steps.
+    apply (inv_okst (sync s) sp); auto. apply sync_inv; auto.
+  - cbn [fst]. apply (sync_steps s sp I D).
+  - destruct (sync_steps s sp I D) as [T1 D1]. destruct (sync_inv s sp I) as [I4 Hp].
+    unfold stop. fold (sync s). destruct (flush_one s None) as [s4 o4] eqn:E.
+    assert (s4 = sync s) by (unfold sync; rewrite E; reflexivity). subst s4.
+    pose proof (flush_one_ok s None) as Eo. rewrite E in Eo. cbn in Eo. subst o4. cbn [fst].
     eapply steps_trans; [exact T1|]. eapply st_mem; [apply mem_deinit|].
-    apply start_steps. apply (dinv_disk_pred s4); auto. apply disk_eq_sym, mem_deinit.
-  - destruct (flush_none_inv s sp I) as (s4 & E & I4 & Hp).
-    unfold stop. rewrite E. cbn [fst].
-    assert (T1 : steps dinv s s4).
-    { replace s4 with (fst (flush_one s None)) by (rewrite E; reflexivity).
-      apply flush_one_steps; auto; cbn [ensure_init].
-      - set (s2 := pend_add s []).
-        assert (SS : same_state s s2) by (unfold same_state, same_maps, same_dptrs; split_and!; reflexivity).
-        pose proof (same_state_inv s s2 sp SS I) as [I2 _].
-        rewrite (advance_head_id s2 sp I2), (recede_tail_id s2 sp I2). exact (iv_m _ _ _ _ I2).
-      - set (s2 := pend_add s []).
-        assert (SS : same_state s s2) by (unfold same_state, same_maps, same_dptrs; split_and!; reflexivity).
-        pose proof (same_state_inv s s2 sp SS I) as [I2 _].
-        rewrite (advance_head_id s2 sp I2), (recede_tail_id s2 sp I2).
-        apply pstored_pchain; [exact (iv_m _ _ _ _ I2)|exact (inv_pstored s2 sp I2)]. }
-    assert (D4 : dinv s4) by (apply (steps_P dinv dinv_disk_pred s s4); auto).
+    apply start_steps. apply (dinv_disk_pred (sync s)); auto. apply disk_eq_sym, mem_deinit.
+  - destruct (sync_steps s sp I D) as [T1 D1]. destruct (sync_inv s sp I) as [I4 Hp].
+    unfold stop. destruct (flush_one s None) as [s4 o4] eqn:E.
+    assert (s4 = sync s) by (unfold sync; rewrite E; reflexivity). subst s4.
+    pose proof (flush_one_ok s None) as Eo. rewrite E in Eo. cbn in Eo. subst o4. cbn [fst].
     eapply steps_trans; [exact T1|]. eapply st_mem; [apply mem_deinit|]. eapply st_mem; [apply mem_fresh|].
-    apply start_steps. apply (dinv_disk_pred s4); auto.
+    apply start_steps. apply (dinv_disk_pred (sync s)); auto.
     eapply disk_eq_trans; [apply disk_eq_sym, mem_deinit|apply disk_eq_sym, mem_fresh].
 Qed.
 
@@ -135,12 +140,12 @@ Proof.
               tailp x1 = None /\ headp x1 = (d_head x ≫= fun id => d_hdr x !! id) /\
               hsh x1 = match headp x1 with Some h => h_height h | None => 0 end).
   { unfold x1, read_head. destruct (d_head x) as [id|]; cbn [mbind option_bind].
-    - rewrite (G x id E2). destruct (d_hdr x !! id) as [h|] eqn:Eh; cbn; rewrite ?Eh; split_and!; auto.
+    - rewrite (G x id E2). destruct (d_hdr x !! id) as [h|] eqn:Eh; cbn; rewrite ?Eh, ?E3, ?E5; split_and!; auto.
     - rewrite E3. split_and!; auto. }
   destruct A as (A1 & A2 & A3 & A4 & A5 & A6 & A7 & A8).
   unfold read_tail. rewrite A5. destruct (d_tail x) as [id|]; cbn [mbind option_bind].
-  - rewrite (G x1 id A2), A3. destruct (d_hdr x !! id) as [h|] eqn:Eh; cbn; rewrite ?A1, ?A2, ?A3, ?A4, ?A7; split_and!; auto.
-  - rewrite A6. split_and!; auto.
+  - rewrite (G x1 id A2), A3. destruct (d_hdr x !! id) as [h|] eqn:Eh; cbn; rewrite ?A1, ?A2, ?A3, ?A4, ?A7; split_and!; auto; rewrite A8, A7; reflexivity.
+  - rewrite A6. split_and!; auto; try (rewrite A8, A7; reflexivity).
 Qed.
 
 Section reopen.
